@@ -4,7 +4,7 @@
 From Coq Require Import NArith ZArith List Bool.
 Import ListNotations.
 Require Import UV.Gen.Consts UV.Mcount.Model UV.Mcount.Forest UV.Mcount.PlainStep UV.Mcount.PlainProofs
-  UV.Mcount.Codec UV.Mcount.PlainMore UV.Mcount.Overflow UV.Mcount.Embed UV.Mcount.EmbedMore UV.Mcount.Check UV.Mcount.Monotone UV.Mcount.Threads.
+  UV.Mcount.Codec UV.Mcount.PlainMore UV.Mcount.Overflow UV.Mcount.Embed UV.Mcount.EmbedOver UV.Mcount.EmbedMore UV.Mcount.Check UV.Mcount.Monotone UV.Mcount.Threads.
 Local Open Scope N_scope.
 
 (* Writer and readers agree on the record word: the hand-packed word of record_ret_stack decodes,
@@ -131,3 +131,16 @@ Theorem C02_each_thread_is_its_history : forall thr gd ms sh l t f,
   out (fst (snd (mrun (plain thr gd ms sh) l all_init) t)) = flat_map (recs thr gd 0) f.
 Proof. exact each_thread_is_its_history. Qed.
 Print Assumptions C02_each_thread_is_its_history.
+
+(* The same two statements for call forests of ANY depth - also nested deeper than --max-stack: calls beyond the limit
+   are left out, the overflow flush of mcount_check_rstack only forces calls to be kept. *)
+Theorem C02_filtered_trace_is_subhistory_any_depth : forall c, no_switch c -> forall f, all_ended f ->
+  exists g, emb g f /\ out (fst (exec c (flat_forest f) (init, []))) = flat_map (history 0) g.
+Proof. exact forest_over. Qed.
+Print Assumptions C02_filtered_trace_is_subhistory_any_depth.
+
+Theorem C02_stream_at_any_instant_any_depth : forall c, no_switch c -> forall f, all_ended f ->
+  forall p q, flat_forest f = p ++ q ->
+  exists g l, emb g f /\ out (fst (exec c p (init, []))) ++ l = flat_map (history 0) g.
+Proof. exact stream_at_any_instant_any_depth. Qed.
+Print Assumptions C02_stream_at_any_instant_any_depth.
